@@ -6,7 +6,7 @@ Validity (the API contract): a zero-delay send carries a strictly smaller type t
 processed, so that it never sorts before it (larger type sorts first on equal timestamps)."""
 import argparse, json, os, random
 
-FAMILIES = ("mixed", "ties", "zerodelay", "fanout", "nonmono", "time0", "initdone", "sparse", "single", "chain")
+FAMILIES = ("mixed", "ties", "zerodelay", "fanout", "nonmono", "time0", "initdone", "sparse", "single", "chain", "pingpong")
 
 
 def gen_chain(seed, size):
@@ -53,7 +53,30 @@ def micro(name):
     raise ValueError(name)
 
 
+def gen_pingpong(seed, size):
+    """one token bouncing between the two halves of the LPs (two threads or two ranks) with nothing else pending: the GVT has to
+    follow the token; optionally a second, slower token"""
+    r = random.Random(seed * 13 + 5)
+    half = r.choice([1, 2, 3])
+    n = 2 * half
+    hops = r.choice([12, 20, 30]) if size == "small" else r.choice([40, 60])
+    pay = [{"size": 0, "padd": 0, "bytes": []}, {"size": 40, "padd": 1, "bytes": [r.randrange(256) for _ in range(40)]}]
+    def snd(off, delay, ty, pid=0):
+        return {"drule": off, "drule2": off, "delay": delay, "ty": ty, "pid": pid}
+    hop = {"drule": half, "drule2": half + (1 if half > 1 else 0), "delay": r.choice([1, 1, 2]), "ty": 1, "pid": r.choice([0, 1])}
+    hop["drule2"] = (n - half + (1 if half > 1 else 0)) % n or half
+    trans = [[{"draw": 0, "lib": 0, "mem": r.choice([0, -1]), "out": [{"ns": r.randrange(2), "sends": [dict(hop)]}]}] for _ in range(2)]
+    init = [[] for _ in range(n)]
+    init[0] = [snd(0, 1, 1)]
+    if r.random() < 0.4:
+        init[n - 1] = [snd(0, r.choice([3, 7]), 1)]
+    return {"seed": seed, "family": "pingpong", "nlps": n, "K": 2, "T": 1, "P": 2, "split": half, "need": [2] * n, "cap": [max(2, hops // n)] * n,
+            "endmask": [1, 1], "payloads": pay, "init": init, "trans": trans}
+
+
 def gen(seed, family="mixed", size="small"):
+    if family == "pingpong":
+        return gen_pingpong(seed, size)
     if family.startswith("micro_"):
         return micro(family[6:])
     if family == "chain":
